@@ -1,11 +1,23 @@
-/* C10 harness (C++ part): private configuration mpt::config::root (kind R),
- * driven through the virtual config interface (assign / remove / query), and
- * the mpt::path methods set / add / del (kind Q, same grammar as kind P).
+/* C10 harness (C++ part), everything of mpt++/config.cpp:
+ *   kind R  private configuration mpt::config::root through the virtual config
+ *           interface (assign / remove / query) and config::get(path, type, ptr);
+ *   kind X  the same store through the caller-level wrappers config::set / del /
+ *           get<T> / environ;
+ *   kind H  the process-global configuration and sub-tree views as C++ sees them:
+ *           config::global(), conversion to config *, config::set / del / get<T>;
+ *           the tree is read back through the collection a query handler receives;
+ *   kind Q  the mpt::path methods set / add / del / next / data / clear_data, copy
+ *           construction and assignment (same grammar as kind P).
  * Grammar: see props/c10.py.  One case per forked child.
  */
 #include "common.h"
+#ifdef VERIF_COV
+extern "C" void __gcov_dump(void);
+#endif
 
 #include <sys/uio.h>
+
+#include <string>
 
 #include "array.h"
 #include "meta.h"
@@ -15,10 +27,19 @@
 
 using namespace mpt;
 
-/* identifier::_len is protected: read the 16 bit length field of the C layout */
-static unsigned ident_len(const mpt::config_item *e)
+/* leave a case without running destructors; the coverage build must write its counters first */
+static void leave(void)
 {
-	const mpt::identifier *id = e;
+	fflush(stdout);
+#ifdef VERIF_COV
+	__gcov_dump();
+#endif
+	_exit(0);
+}
+
+/* identifier::_len is protected: read the 16 bit length field of the C layout */
+static unsigned ident_len(const mpt::identifier *id)
+{
 	uint16_t l;
 	memcpy(&l, id, sizeof(l));
 	return l;
@@ -87,14 +108,68 @@ static int get_handler(void *ptr, mpt::convertable *val, const mpt::collection *
 	c->found = meta_text(val, &c->base, &c->len) ? 2 : 1;
 	return 0;
 }
-static void observe(const mpt::config &cfg, const struct spec *s)
+/* result classes: y = found, n = MissingData, t = BadType, f = the bool wrappers said no */
+static void put_class(int r)
+{
+	if (r >= 0) vh_add("y");
+	else if (r == mpt::MissingData) vh_add("n");
+	else if (r == mpt::BadType) vh_add("t");
+	else vh_add("%d", r);
+}
+static void put_bytes(const void *base, size_t len)
+{
+	const uint8_t *b = (const uint8_t *) base;
+	if (!b) { vh_add("Z"); return; }
+	if (len && !b[len - 1]) --len;
+	vh_add("V"); venc(b, len);
+}
+static void put_str(const char *str)
+{
+	if (!str) { vh_add("Z"); return; }
+	vh_add("V"); venc(str, strlen(str));
+}
+/* config::get(path, type, ptr) is protected */
+struct probe : public mpt::config::root
+{
+	using mpt::config::get;
+};
+/* one observation: the element as a query handler sees it, then the value accessors.
+ * raw = 1: config::get(path, type, ptr) with type 0 / vector of char / 's' (kind R);
+ * raw = 0: query without handler and the typed get<T> wrappers; for '.'-separated
+ * strings also get<T>(const char *, T &) */
+static void observe(const mpt::config &cfg, const probe *raw, const struct spec *s)
 {
 	mpt::path p(s->str, s->sep, 0);
 	struct getctx c = { 0, 0, 0 };
 	int r = cfg.query(&p, get_handler, &c);
-	if (r < 0 || !c.found) { vh_add("A"); return; }
-	if (c.found == 1) { vh_add("E"); return; }
-	vh_add("V"); venc(c.base, c.len);
+	if (r < 0 || !c.found) vh_add("A");
+	else if (c.found == 1) vh_add("E");
+	else { vh_add("V"); venc(c.base, c.len); }
+	vh_add("/");
+	if (raw) {
+		struct iovec vec = { 0, 0 };
+		const char *str = 0;
+		put_class(raw->get(p, 0, 0));
+		vh_add("/");
+		r = raw->get(p, MPT_type_toVector('c'), &vec);
+		if (r < 0) put_class(r); else put_bytes(vec.iov_base, vec.iov_len);
+		vh_add("/");
+		r = raw->get(p, 's', &str);
+		if (r < 0) put_class(r); else put_str(str);
+		return;
+	}
+	mpt::span<const char> sp(0, 0);
+	const char *str = 0;
+	put_class(cfg.query(&p, 0, 0));
+	vh_add("/");
+	if (cfg.get(p, sp)) put_bytes(sp.begin(), (size_t) sp.size()); else vh_add("f");
+	vh_add("/");
+	if (cfg.get(p, str)) put_str(str); else vh_add("f");
+	if (s->sep == '.') {
+		str = 0;
+		vh_add("/");
+		if (cfg.get((const char *) s->str, str)) put_str(str); else vh_add("f");
+	}
 }
 static void dump_items(const mpt::span<const mpt::config_item> &sp)
 {
@@ -110,6 +185,80 @@ static void dump_items(const mpt::span<const mpt::config_item> &sp)
 		if (e->elements().begin() != e->elements().end()) { vh_add("("); dump_items(e->elements()); vh_add(")"); }
 	}
 }
+/* ---- listing through the collection a query handler receives
+ * (collectionEach of config_global.c, config_item::subtree for config::root) */
+struct lctx { int count, depth; };
+static int list_item(void *ptr, const mpt::identifier *id, mpt::convertable *val, const mpt::collection *sub)
+{
+	struct lctx *c = (struct lctx *) ptr, ch;
+	const uint8_t *b; size_t l;
+	if (!c->count++) { if (c->depth) vh_add("("); }
+	else vh_add(",");
+	/* an unused slot of a config_item array is handed out too */
+	if (!id || !ident_len(id)) { vh_add("_"); return 0; }
+	venc(id->name(), ident_len(id) - 1);
+	if (meta_text(val, &b, &l)) { vh_add("="); venc(b, l); }
+	else vh_add("!");
+	ch.count = 0;
+	ch.depth = c->depth + 1;
+	if (sub && sub->each(list_item, &ch) < 0) vh_add("?");
+	if (ch.count) vh_add(")");
+	return 0;
+}
+static void list_coll(const mpt::collection *coll)
+{
+	struct lctx ch = { 0, 0 };
+	if (coll && coll->each(list_item, &ch) < 0) vh_add("?");
+	if (!ch.count) vh_add("0");
+}
+static int list_handler(void *, mpt::convertable *val, const mpt::collection *coll)
+{
+	const uint8_t *b; size_t l;
+	vh_add("L");
+	if (meta_text(val, &b, &l)) { vh_add("="); venc(b, l); }
+	else vh_add("!");
+	vh_add("(");
+	list_coll(coll);
+	vh_add(")");
+	return 0;
+}
+/* a handler whose item callback refuses the first item: the error must come back */
+static int stop_item(void *, const mpt::identifier *, mpt::convertable *, const mpt::collection *)
+{
+	return -7;
+}
+static int stop_handler(void *, mpt::convertable *, const mpt::collection *coll)
+{
+	return coll ? coll->each(stop_item, 0) : 0;
+}
+static int dump_handler(void *, mpt::convertable *, const mpt::collection *coll)
+{
+	list_coll(coll);
+	return 0;
+}
+/* ---- config::environ(glob, sep, env): variables given explicitly (no process environment) */
+static int run_environ(mpt::config *cfg, const char *septok, const char *pattok, const char *enttok)
+{
+	unsigned sep = 0;
+	char *pat = cstr_of_hex(pattok);
+	char **env;
+	size_t n = 1, k = 0;
+	const char *c;
+	sscanf(septok, "%2x", &sep);
+	for (c = enttok; *c; c++) if (*c == ',') ++n;
+	env = (char **) calloc(n + 1, sizeof(*env));
+	std::string all(enttok), cur;
+	size_t pos = 0;
+	while (pos <= all.size()) {
+		size_t e = all.find(',', pos);
+		if (e == std::string::npos) e = all.size();
+		cur = all.substr(pos, e - pos);
+		env[k++] = cstr_of_hex(cur.c_str());
+		pos = e + 1;
+	}
+	env[k] = 0;
+	return cfg->environ(pat, (int) sep, env);
+}
 /* ---------------------------------------------------------------- kind Q: mpt::path methods */
 /* the data members of mpt::path are protected: same layout as the C struct */
 struct rawpath { const char *base; size_t off, len; uint8_t first, flags; char sep, assign; };
@@ -117,12 +266,34 @@ static_assert(sizeof(rawpath) == sizeof(mpt::path), "path layout");
 static rawpath *rp(mpt::path *p) { return reinterpret_cast<rawpath *>(p); }
 enum { PathHasArray = 0x40, PathSepBinary = 0x80 };
 
-static size_t path_used(const rawpath *p)
+static std::string hexs(const void *p, size_t n)
 {
-	const mpt::buffer *b = reinterpret_cast<const mpt::buffer *>(p->base);
-	/* _used is protected in C++: second size_t behind vptr and traits pointer (C layout) */
-	const size_t *w = reinterpret_cast<const size_t *>(b - 1);
-	return w[3];
+	static const char dig[] = "0123456789abcdef";
+	const uint8_t *b = (const uint8_t *) p;
+	std::string s;
+	for (size_t i = 0; i < n; i++) { s += dig[b[i] >> 4]; s += dig[b[i] & 15]; }
+	return s;
+}
+/* what a path denotes: committed bytes, post data (through path::data()), element walk */
+static std::string path_image(mpt::path *pp)
+{
+	rawpath *p = rp(pp);
+	std::string s;
+	mpt::span<const char> d = pp->data();
+	int r;
+	s = p->base ? hexs(p->base + p->off, p->len) : std::string("-");
+	s += "|";
+	s += hexs(d.begin(), (size_t) d.size());
+	s += "|";
+	rawpath q = *p;
+	q.flags &= ~PathHasArray;
+	for (;;) {
+		size_t off = q.off;
+		if ((r = mpt_path_next(reinterpret_cast<mpt::path *>(&q))) < 0) break;
+		s += hexs(q.base + off, (size_t) r);
+		s += ",";
+	}
+	return s;
 }
 static void show_path(mpt::path *pp, int ret, int isset)
 {
@@ -132,11 +303,13 @@ static void show_path(mpt::path *pp, int ret, int isset)
 	vh_add("|%zu.%zu.%u.%u.%d|", p->off, p->len, (unsigned) p->first, (unsigned) p->flags, isset ? ret : 0);
 	if (p->base) enc(48, p->base + p->off, p->len); else vh_add("-");
 	vh_add("|");
-	if (p->base && (p->flags & PathHasArray)) {
-		size_t used = path_used(p), end = p->off + p->len;
-		enc(48, p->base + end, used > end ? used - end : 0);
+	{
+		/* the post data as the class hands it out (nothing without an array) */
+		mpt::span<const char> d = pp->data();
+		if (p->base && (p->flags & PathHasArray)) enc(48, d.begin(), (size_t) d.size());
+		else if (d.size()) vh_add("F:data");
+		else vh_add("-");
 	}
-	else vh_add("-");
 	vh_add("|");
 	/* walk a raw copy (no reference taken, flag cleared so that nothing is released) */
 	rawpath q = *p;
@@ -157,6 +330,8 @@ static void run_path(int ntok, char **tok)
 	sscanf(tok[2], "%2x", &sep);
 	sscanf(tok[3], "%2x", &asg);
 	mpt::path *p = new mpt::path(0, (int) sep, (int) asg);
+	mpt::path *orig = 0;
+	std::string image;
 	while (i < ntok) {
 		const char *op = tok[i++];
 		int r;
@@ -170,7 +345,16 @@ static void run_path(int ntok, char **tok)
 			p->set(buf, len);
 			show_path(p, r, 1);
 		}
-		else if (!strcmp(op, "next")) { r = mpt_path_next(p); show_path(p, r, 0); }
+		else if (!strcmp(op, "next")) {
+			/* path::next() reports success only: the element length is the one of a raw copy */
+			rawpath q = *rp(p);
+			bool ok;
+			q.flags &= ~PathHasArray;
+			r = mpt_path_next(reinterpret_cast<mpt::path *>(&q));
+			ok = p->next();
+			if (ok != (r >= 0)) vh_tok("F:next");
+			show_path(p, r, 0);
+		}
 		else if (!strcmp(op, "last")) { r = mpt_path_last(p); show_path(p, r, 0); }
 		else if (!strcmp(op, "del")) { r = p->del(); show_path(p, r, 0); }
 		else if (!strcmp(op, "add")) { r = p->add(atoi(tok[i++])); show_path(p, r, 0); }
@@ -185,52 +369,165 @@ static void run_path(int ntok, char **tok)
 			show_path(p, 0, 0);
 		}
 		else if (!strcmp(op, "bin")) { rp(p)->flags |= PathSepBinary; show_path(p, 0, 0); }
+		else if (!strcmp(op, "clr") || !strcmp(op, "clrx")) { r = p->clear_data() ? 0 : -1; show_path(p, r, 0); }
+		else if (!strcmp(op, "cp")) {
+			/* copy construction; the original goes away */
+			mpt::path *q = new mpt::path(*p);
+			delete p;
+			p = q;
+			show_path(p, 0, 0);
+		}
+		else if (!strcmp(op, "asg")) {
+			/* assignment to itself, then into a path that holds an array of its own */
+			mpt::path *q = new mpt::path(0, '/', 0);
+			*p = *p;
+			mpt_path_addchar(q, 'z');
+			mpt_path_addchar(q, 'z');
+			*q = *p;
+			delete p;
+			p = q;
+			show_path(p, 0, 0);
+		}
+		else if (!strcmp(op, "fork")) {
+			/* the original stays alive; work goes on with the copy */
+			if (orig) delete orig;
+			orig = p;
+			p = new mpt::path(*orig);
+			image = path_image(orig);
+			show_path(p, 0, 0);
+		}
 		else { fprintf(stderr, "bad op %s\n", op); _exit(3); }
+		/* whatever is done to the copy, the original must denote what it did */
+		if (orig) vh_add(";o%d", path_image(orig) == image ? 1 : 0);
 	}
-	fflush(stdout);
-	_exit(0);
+	leave();
 }
 
+/* ---------------------------------------------------------------- kinds R, X, H */
 static void run_case(int ntok, char **tok)
 {
 	if (ntok >= 4 && tok[1][0] == 'Q') { run_path(ntok, tok); return; }
-
+	if (ntok >= 2 && tok[1][0] == 'T') {
+		/* one-shot: the named traits of the config pointer type */
+		const mpt::named_traits *nt = mpt::config::pointer_traits();
+		vh_tok("%s.%d", (nt && nt->name) ? nt->name : "~", nt ? (int) nt->type : -1);
+		vh_add(".%d", (int) (nt ? nt->type : 0) == (int) mpt::TypeConfigPtr);
+		leave();
+	}
 	int i = 2, nv, no, k;
-	struct spec *obs;
-	mpt::config::root cfg;
+	struct spec *obs, *views;
+	const char kind = tok[1][0];
+	probe *store = new probe;
+	mpt::config **cfg;
+	mpt::metatype **mts;
 
-	if (ntok < 4 || tok[1][0] != 'R') return;
+	if (ntok < 4 || (kind != 'R' && kind != 'X' && kind != 'H')) return;
 	nv = atoi(tok[i++]);
-	i += nv;
+	views = (struct spec *) calloc(nv + 1, sizeof(*views));
+	cfg = (mpt::config **) calloc(nv + 1, sizeof(*cfg));
+	mts = (mpt::metatype **) calloc(nv + 1, sizeof(*mts));
+	for (k = 0; k < nv; k++) views[k] = parse_spec(tok[i++]);
 	no = atoi(tok[i++]);
 	obs = (struct spec *) calloc(no + 1, sizeof(*obs));
 	for (k = 0; k < no; k++) obs[k] = parse_spec(tok[i++]);
 
+	if (kind == 'H') {
+		/* the global configuration and its views as C++ objects */
+		for (k = 0; k <= nv; k++) {
+			if (!k) mts[0] = mpt::config::global();
+			else {
+				mpt::path p(views[k - 1].str, views[k - 1].sep, 0);
+				mts[k] = mpt::config::global(&p);
+			}
+			if (!mts[k] || mts[k]->convert(mpt::TypeConfigPtr, &cfg[k]) < 0 || !cfg[k]) {
+				vh_tok("F:view");
+				return;
+			}
+		}
+	}
+	else cfg[0] = store;
+
 	while (i < ntok) {
 		const char *op = tok[i++];
 		if (i >= ntok) break;
-		struct spec s = parse_spec(tok[i++]);
-		mpt::path where(s.str, s.sep, 0);
-		int r;
-		if (!strcmp(op, "a")) {
-			const char *v = cstr_of_hex(tok[i++]);
-			mpt::value val;
-			val = v;
-			r = cfg.assign(&where, &val);
-			vh_tok("%s", r >= 0 ? "ok" : "no");
-		} else {
-			r = cfg.remove(&where);
-			vh_tok("%s", (r >= 0 && !where.empty()) ? "rm" : "--");
+		if (!strcmp(op, "env")) {
+			/* env <sephex> <patternhex> <hex,hex,...>: always on handle 0 */
+			if (i + 2 >= ntok) break;
+			vh_tok("n%d", run_environ(cfg[0], tok[i], tok[i + 1], tok[i + 2]));
+			i += 3;
+		}
+		else {
+			struct spec s = parse_spec(tok[i++]);
+			mpt::config *c = cfg[kind == 'H' ? s.h : 0];
+			int r;
+			if (!strcmp(op, "a")) {
+				const char *v = cstr_of_hex(tok[i++]);
+				if (kind == 'R') {
+					mpt::path where(s.str, s.sep, 0);
+					mpt::value val;
+					val = v;
+					r = c->assign(&where, &val);
+					vh_tok("%s", r >= 0 ? "ok" : "no");
+				}
+				else vh_tok("%s", c->set(s.str, v, s.sep) ? "ok" : "no");
+			}
+			else if (!strcmp(op, "r")) {
+				mpt::path where(s.str, s.sep, 0);
+				if (kind == 'R') {
+					r = c->remove(&where);
+					vh_tok("%s", (r >= 0 && !where.empty()) ? "rm" : "--");
+				}
+				else if (kind == 'X') {
+					vh_tok("%s", (c->set(s.str, 0, s.sep) && !where.empty()) ? "rm" : "--");
+				}
+				else {
+					/* configRemove: 1 = removed, 0 = nothing there / cleared, BadOperation for an
+					 * empty store; the bool wrapper only shows the last */
+					vh_tok("vr%d", c->set(s.str, 0, s.sep) ? 1 : 0);
+				}
+			}
+			else if (!strcmp(op, "d")) {
+				/* config::del(path, sep, len): by string length -1 (the terminator decides), the
+				 * full length, or one byte less (the last byte is not part of the path) */
+				size_t n = s.str ? strlen(s.str) : 0;
+				c->del(s.str, s.sep, (n % 3 == 0) ? -1 : (n % 3 == 1) ? (int) n : (int) n - 1);
+				vh_tok("vd");
+			}
+			else if (!strcmp(op, "z")) {
+				/* assignment without value */
+				mpt::path where(s.str, s.sep, 0);
+				r = c->assign(&where, 0);
+				vh_tok("%s", r >= 0 ? "ok" : "no");
+			}
+			else if (!strcmp(op, "l")) {
+				vh_tok("%s", "");
+				if (kind != 'H' && !s.str) {
+					r = c->query(0, list_handler, 0);
+					if (r >= 0) vh_add(";s%d", c->query(0, stop_handler, 0));
+				}
+				else {
+					mpt::path where(s.str, s.sep, 0);
+					r = c->query(&where, list_handler, 0);
+					if (r >= 0) vh_add(";s%d", c->query(&where, stop_handler, 0));
+				}
+				if (r < 0) vh_add("LA");
+			}
+			else { fprintf(stderr, "bad op %s\n", op); _exit(3); }
 		}
 		vh_add("|1|");
 		for (k = 0; k < no; k++) {
 			if (k) vh_add(",");
-			observe(cfg, &obs[k]);
+			observe(*cfg[kind == 'H' ? obs[k].h : 0], kind == 'R' ? store : 0, &obs[k]);
 		}
 		vh_add("|");
-		dump_items(cfg.items());
+		if (kind == 'H') {
+			mpt::path top;
+			if (cfg[0]->query(&top, dump_handler, 0) < 0) vh_add("?");
+		}
+		else dump_items(store->items());
 	}
 	fflush(stdout);
-	_exit(0);   /* destructors of the store are not the subject */
+	delete store;   /* config::root::~root: everything is released exactly once (ASan) */
+	leave();
 }
 int main(int c, char **v) { return vh_main(c, v, run_case); }
